@@ -475,6 +475,5 @@ pub fn exec_ata(wallet: &str, mint: &str) -> Exec {
             ),
         ));
     }
-    debug_assert_eq!(AssociatedToken::ID, spl_associated_token_account_interface::program::ID);
     Exec { answer, fails, nontrivial: pre.is_some(), bumps }
 }
